@@ -190,3 +190,39 @@ Definition negotiate (brty0 : Z) (ia : iopt) (tb : topt) (la lb : lopt) (id3 id3
   do ca <- llc_takeover (lo_sec la) (di_gb (do_i d));
   do cb <- (if do_tact d then llc_takeover (lo_sec lb) (dt_gb (do_t d)) else Ok (mklcfg false 0 0 0 0 0 0));
   Ok (mkp2p d ca cb).
+
+(* ------------------------------------------------------------------ one LLC object over several activations *)
+(* The cfg entries that live across activations of the same LogicalLinkController: the options of __init__, the entry
+   'send-lsc' (local value before the first activation, REMOTE value afterwards), the entry 'local-lsc' (set by the first
+   activation, fixes/c19-lsc-announced-after-reactivation.diff) and the values taken over from the last peer. *)
+Record lstate := mkls { ls_opt : lopt; ls_send_lsc : Z; ls_local_lsc : option Z; ls_held : lcfg }.
+
+Definition llc_new (o : lopt) : lstate := mkls o (lo_lsc o) None (mklcfg false 0 0 0 0 0 0).
+
+(* local_lsc = self.cfg.setdefault('local-lsc', self.cfg['send-lsc']) *)
+Definition announce_lsc (local : option Z) (send_lsc : Z) : Z := match local with Some v => v | None => send_lsc end.
+
+(* the getters of the received PAX and the assignments self.cfg[...] = rcvd_pax.... *)
+Definition pax_miu (p : pax) : Z := match p_miux p with Some x => x + 128 | None => 128 end.
+Definition pax_lto (p : pax) : Z := match p_lto p with Some x => x * 10 | None => 100 end.
+Definition pax_wks (p : pax) : Z := match p_wks p with Some x => x | None => 0 end.
+Definition pax_lsc (p : pax) : Z := match p_opt p with Some x => Z.land x 3 | None => 0 end.
+Definition pax_dpc (p : pax) : Z := match p_opt p with Some x => (x / 4) mod 2 | None => 0 end.
+Definition pax_ver (p : pax) : Z := match p_ver p with Some x => x | None => 0 end.
+Definition cfg_assign (sec : bool) (miu lto wks lsc dpc ver : Z) : lcfg := mklcfg true miu lto wks lsc (if sec then dpc else 0) ver.
+
+(* llc.activate of an LLC in state s against a peer that answers with the general bytes peer_gb:
+   what is announced, and the state afterwards (unchanged cfg when nothing is taken over) *)
+Definition llc_activate (s : lstate) (peer_gb : list Z) : res (list Z * lstate) :=
+  let o := ls_opt s in
+  let local := announce_lsc (ls_local_lsc s) (ls_send_lsc s) in
+  do gb <- general_bytes (mklopt (lo_miu o) (lo_lto o) local (lo_sec o) (lo_saps o));
+  do c <- llc_takeover (lo_sec o) peer_gb;
+  Ok (gb, if c_ok c then mkls o (c_send_lsc c) (Some local) c else mkls o (ls_send_lsc s) (Some local) (ls_held s)).
+
+(* a history: the peers' general bytes one after the other *)
+Fixpoint llc_history (s : lstate) (peers : list (list Z)) : res (list (list Z) * lstate) :=
+  match peers with
+  | [] => Ok ([], s)
+  | g :: rest => do x <- llc_activate s g; do y <- llc_history (snd x) rest; Ok (fst x :: fst y, snd y)
+  end.
